@@ -27,7 +27,11 @@ TEXTS = ['- a', '! a', '+ a', '++ a', '++ a ++', 'f', 'a ( f )', 'a + b', 'a * b
          # assignment-type operators, also with targets that are not names (the parser accepts them)
          'a = b', 'a += b ++', '2 = 3 = 4', 'f ( a ) += 1', '[ a ] = b', 'a ++ = 1', '- a = b',
          # deep trees (the property has no depth bound): a 70-term sum (left-deep), 70 nested lists / calls, 70 prefix operators
-         ' + '.join(['a'] * 70), '[ ' * 70 + 'a' + ' ]' * 70, 'f ( ' * 70 + 'a' + ' )' * 70, '- ' * 70 + 'a']
+         ' + '.join(['a'] * 70), '[ ' * 70 + 'a' + ' ]' * 70, 'f ( ' * 70 + 'a' + ' )' * 70, '- ' * 70 + 'a',
+         # very deep: a 600-term sum (configurations none / all only), and a short tree described right after it on the same thread
+         ' + '.join(['1'] * 600)]
+VERY_DEEP = {TEXTS[-1]}
+AFTER_DEEP = 'a + b'
 SETTERS = {'UNARY': 'set_unary_descriptor', 'BINARY': 'set_binary_descriptor', 'POSTFIX': 'set_postfix_descriptor',
            'TERNARY': 'set_ternary_descriptor', 'FUNCTION': 'set_function_descriptor', 'REFERENCE': 'set_reference_descriptor',
            'LIST': 'set_list_descriptor', 'MAP': 'set_map_descriptor', 'CHAIN': 'set_chain_descriptor'}
@@ -142,12 +146,26 @@ def harness(it, px, params):
         args.append(ArcV(Cell(marker_fn(marker_name(i)), 'marker')))
         it.call('DescriptorManager::' + SETTERS[kind], args)
         reg[(kind, name)] = marker_name(i)
+    if text in VERY_DEEP and cname not in ('none', 'all'):
+        px.cover('described')
+        rec['skipped'] = True
+        return rec
     p = api.parse(it, text)
     if p.kind != 'ok':
         raise ModelError('C18 text did not parse: ' + text)
     d = api.describe(it, p.value)
     want = ref_describe(rf.ref_parse(text.split(), rf.BUILTIN_INFIX, any_prefix=True), reg)
     rec['want'] = want
+    if text in VERY_DEEP and d.kind == 'ret' and bytes(render.deref(d.value).b).decode('utf-8', 'replace') == want:
+        # describe() is a function of the tree and the registrations: a short tree described after the very deep one
+        p2 = api.parse(it, AFTER_DEEP)
+        d2 = api.describe(it, p2.value)
+        want2 = ref_describe(rf.ref_parse(AFTER_DEEP.split(), rf.BUILTIN_INFIX, any_prefix=True), reg)
+        got2 = bytes(render.deref(d2.value).b).decode('utf-8', 'replace') if d2.kind == 'ret' else d2.kind
+        px.cover('described-after-deep')
+        if got2 != want2:
+            px.finding({'key': 'C18|wrong-rendering-after-deep|%s' % cname, 'desc': 'describe(`%s`) right after describing a 600-term sum gives `%s`, expected `%s`' % (AFTER_DEEP, got2, want2),
+                        'text': text, 'idxs': idxs, 'want': want2, 'after': AFTER_DEEP})
     px.cover('described')
     if d.kind != 'ret':
         px.finding({'key': 'C18|%s|%s' % (d.kind, text), 'desc': 'describe() %s: %s' % (d.kind, d.detail), 'text': text, 'idxs': idxs, 'want': want})
@@ -162,7 +180,7 @@ def harness(it, px, params):
     return rec
 
 
-def scenario(text, idxs):
+def scenario(text, idxs, after=None):
     steps = []
     for i in idxs:
         kind, name = CANDS[i]
@@ -171,12 +189,14 @@ def scenario(text, idxs):
             st['name'] = name.encode().hex()
         steps.append(st)
     steps.append({'op': 'parse', 'hex': text.encode().hex(), 'want': ['describe']})
+    if after is not None:
+        steps.append({'op': 'parse', 'hex': after.encode().hex(), 'want': ['describe']})
     return steps
 
 
 def run(ctx):
     cfgs = configs()
-    params = {'configs': cfgs, 'seed': ctx.seed, 'timeout_ms': 10000, 'step_limit': 400000}
+    params = {'configs': cfgs, 'seed': ctx.seed, 'timeout_ms': 10000, 'step_limit': 8000000}
     eng = ctx.engine('dev')
     recs, summ = ex.explore(eng, harness, params, prepare=prepare)
     kres = kani_adapter.run_group('C18', ctx.tier)
@@ -197,7 +217,7 @@ def run(ctx):
     validated = 0
     for key, fs in sorted(groups.items()):
         f = fs[0]
-        sc = scenario(f['text'], f['idxs'])
+        sc = scenario(f['text'], f['idxs'], f.get('after'))
         od = ctx.native(sc, 'dev')[-1]
         validated += 1
         got = od.get('describe')
@@ -215,14 +235,14 @@ def run(ctx):
     else:
         inconclusive.append('kani runner failed: %s' % kres.get('detail', '')[-300:])
     # sampled native validation
-    done = [r for r in recs if r['status'] == 'done' and not r.get('findings')]
+    done = [r for r in recs if r['status'] == 'done' and not r.get('findings') and not r.get('skipped')]
     cfgmap = dict(cfgs)
     for r in done[:: max(1, len(done) // 40)]:
         od = ctx.native(scenario(r['text'], cfgmap[r['config']]), 'dev')[-1]
         validated += 1
         if od.get('kind') != 'ok' or isinstance(od.get('describe'), dict) or bytes.fromhex(od['describe']).decode('utf-8', 'replace') != r['got']:
             inconclusive.append('encoder mismatch: describe(%s) under %s: model %r native %r' % (r['text'], r['config'], r['got'], od.get('describe')))
-    samples = [{'text': r['text'], 'registrations': r['config'], 'describe': r.get('got')} for r in recs if r['status'] == 'done'][:: max(1, len(recs) // 20)][:25]
+    samples = [{'text': r['text'], 'registrations': r['config'], 'describe': r.get('got')} for r in recs if r['status'] == 'done' and not r.get('skipped')][:: max(1, len(recs) // 20)][:25]
     ev = {
         'coverage': {
             'states': max(1, summ['paths']), 'transitions': max(1, summ['decisions']),
